@@ -33,6 +33,13 @@ CLAIMED["C09"] = (
     "NumPy/numba models; exact arithmetic; rolling_mean of timedelta and the group-sorted (pandas) layout are outside; unselected/null-key rows are C05/C06",
     "DESIGN.md 4 C09")
 
+CLAIMED["C15"] = (
+    "the positional arrays behind head/tail/nth list exactly the first/last n (n-th) selected rows of every group, -1 elsewhere, never a "
+    "null-key row: solver-decided for all code sequences and masks within N<=4,G<=2 (quick) / N<=6,G<=3 (thorough); for groups of ANY "
+    "size by a one-step inductive query over the kernels' per-group counters with their real dtype (explicit wrap-around)",
+    "positions only (pandas iloc/set_index/sort_index in _get_row_selection outside); the inductive invariant is stated in DESIGN 3.6",
+    "DESIGN.md 4 C15")
+
 NOT_APPLICABLE = {
     "C11": "labelling/order/shape are decided entirely by pandas Index/MultiIndex/DataFrame operations (C extension semantics); nothing symbolic to quantify over within reach of the encoder (DESIGN.md 5)",
     "C14": "margins and crosstab are reindex/groupby(level)/concat/unstack on pandas objects; not encodable (DESIGN.md 5)",
